@@ -1172,6 +1172,306 @@ def gen_cases(seed, tier):
     return cases
 
 
+# ------------------------------------------------------------------------------------------- late-value stream
+# The contexts above always have the field's value present when the contracts are applied.  Here a RECORD goes through a history
+# of steps, and some of its fields only get their value after several record contracts have been applied to a record that did not
+# define them yet:
+#   apply   `E | K`  or  `E | std.contract.Sequence [K1, K2]`   K = closed/open record contract, each field optional or not, with
+#                                                                contracts from the grammar above, possibly a default value
+#   cmerge  `E & {f | C, g | optional | C}` (either side)        the same fields as a plain merge operand (never closed)
+#   def     `E & {f = v}`, `{f | default = v} & E`, `E & {f | force = v}`, `E & {f | C = v}`   an operand that defines fields
+# in every order, optionally one level down (`{y = E} & {y = {f = v}}`).  Reference (exact, by a direct simulation of the
+# language semantics, no model of the implementation): a closed record contract rejects, WHEN IT IS APPLIED, the fields the
+# record holds at that time that it does not list, except empty optional ones; every contract that any step attaches to a field
+# is enforced on the field's FINAL value (the definition of highest priority), whatever happened in between; a field that is
+# still undefined at the end is skipped if optional and is a missing definition otherwise.
+
+PRIO = {"default": 0, "normal": 1, "force": 2}
+LATE_BASE, LATE_LATE = ["bar", "baz"], ["foo", "qux"]
+
+
+def k_src(K, closedness=True):
+    parts = []
+    for (f, opt, cs, dflt) in K["fields"]:
+        anns = ["optional"] if opt else []
+        anns = (anns + [src(c) for c in cs]) if K.get("opt_first") else ([src(c) for c in cs] + anns)
+        s_ = f + "".join(" | " + a for a in anns)
+        if dflt is not None:
+            s_ += " | default = " + nickel_V(dflt[0])
+        parts.append(s_)
+    if closedness and K["open"]:
+        parts.append("..")
+    return "{%s}" % ", ".join(parts)
+
+
+def late_sim(base, steps, also=None):
+    """-> (violated checks, final values); also: list receiving the checks that only the order-aware model of nested undefined
+    fields sees (used for the admissible error classes of a rejection, never for accept/reject)"""
+    st = {}
+    also = [] if also is None else also
+
+    def put(f, val, opt, cs):
+        e = st.get(f)
+        if e is None:
+            st[f] = {"val": val, "opt": opt, "cs": list(cs)}
+            return
+        e["cs"] += list(cs)
+        e["opt"] = e["opt"] and opt
+        if val is not None:
+            if e["val"] is None or val[1] > e["val"][1]:
+                e["val"] = val
+            elif val[1] == e["val"][1]:
+                raise ValueError("two definitions of %s with the same priority" % f)
+
+    for f, (v, opt, cs) in base.items():
+        put(f, None if v is None else (v[0], PRIO["normal"]), opt, cs)
+    for stp in steps:
+        if stp[0] == "apply":
+            for K in stp[1]:
+                names = [x[0] for x in K["fields"]]
+                if not K["open"]:
+                    extra = [f for f, e in st.items() if f not in names and not (e["val"] is None and e["opt"])]
+                    if extra:
+                        return [((f,), "record:extra-field", BLAME) for f in extra], None
+                for (f, opt, cs, dflt) in K["fields"]:
+                    put(f, None if dflt is None else (dflt[0], PRIO["default"]), opt, cs)
+        elif stp[0] == "cmerge":
+            for (f, opt, cs, dflt) in stp[1]["fields"]:
+                put(f, None if dflt is None else (dflt[0], PRIO["default"]), opt, cs)
+        elif stp[0] == "def":
+            for f, (prio, v, cs) in stp[1].items():
+                put(f, (v, PRIO[prio]), False, cs)
+    out, final = [], {}
+    for f, e in st.items():
+        if e["val"] is None:
+            if not e["opt"]:
+                out.append(((f,), "record:missing-field", MISSING))
+            continue
+        final[f] = e["val"][0]
+        seen = []
+        for c in e["cs"]:
+            if c not in seen:
+                seen.append(c)
+                out += fails(c, e["val"][0], (f,))
+        # error classes only: a nested field that one contract requires and the value lacks stays as an undefined field and is
+        # an extra field for a later closed contract on the same value (Blame+ instead of MissingDef, still a rejection)
+        also += [x for x in g_fails(seen, e["val"][0]) if x[2] not in [y[2] for y in out]]
+    return out, final
+
+
+def late_render(base, steps, nest_from, aliases):
+    """nest_from: index of the first step written one level up (`{y = E} & {y = operand}`; only def/cmerge steps may follow)"""
+    def ksrc(K, closedness=True):
+        return aliases.get(id(K), None) if closedness and id(K) in aliases else k_src(K, closedness)
+    parts = []
+    for f, (v, opt, cs) in base.items():
+        s_ = f + ("" if not opt else " | optional") + "".join(" | " + src(c) for c in cs)
+        parts.append(s_ + (" = " + nickel_V(v[0]) if v is not None else ""))
+    E = "{%s}" % ", ".join(parts)
+    nested = False
+    for i, stp in enumerate(steps):
+        if nest_from is not None and i == nest_from:
+            E = "{y = %s}" % E
+            nested = True
+        w = (lambda x: "{y = %s}" % x) if nested else (lambda x: x)
+        if stp[0] == "apply":
+            Ks = stp[1]
+            c = ksrc(Ks[0]) if len(Ks) == 1 else "std.contract.%s [%s]" % (stp[2], ", ".join(ksrc(K) for K in Ks))
+            E = "(%s | %s)" % (E, c)
+        elif stp[0] == "cmerge":
+            o = w(k_src(stp[1], False))
+            E = "(%s & %s)" % ((E, o) if stp[2] == "right" else (o, E))
+        else:
+            fs = []
+            for f, (prio, v, cs) in stp[1].items():
+                fs.append(f + "".join(" | " + src(c) for c in cs) + {"normal": "", "default": " | default", "force": " | force"}[prio] + " = " + nickel_V(v))
+            o = w("{%s}" % ", ".join(fs))
+            E = "(%s & %s)" % ((E, o) if stp[2] == "right" else (o, E))
+    return E, nested
+
+
+def late_case(r, n, spec=None):
+    """one history; spec (systematic grid) fixes the shape"""
+    spec = spec or {}
+    for _ in range(30):
+        fields = ["bar"] + (["baz"] if r.chance(1, 3) else []) + ["foo"] + (["qux"] if r.chance(1, 3) else [])
+        if spec:
+            fields = ["bar", "foo"]
+        fam = {}
+        for f in fields:
+            c = gen_contract(r, r.weighted([(0, 5), (1, 3), (2, 1)])) if not spec else ("num",)
+            fam[f] = [c, near(r, c)] if r.chance(1, 3) and not spec else [c]
+        used = {f: [] for f in fields}
+
+        def pick_cs(f):
+            cs = [r.choice(fam[f])] + ([r.choice(fam[f])] if r.chance(1, 6) else [])
+            cs = [c for i, c in enumerate(cs) if c not in cs[:i]]
+            used[f] += cs
+            return tuple(cs)
+        late = [f for f in fields if f in LATE_LATE]
+        # ---- contract steps
+        Ks = []
+        nk = spec.get("nk", r.weighted([(1, 3), (2, 5), (3, 3)]))
+        for i in range(nk):
+            ks = spec["ks"][i] if spec else None
+            fs = []
+            for f in fields:
+                is_late = f in late
+                mention = ks["mention"].get(f, True) if ks else r.chance(4, 5) if not is_late else r.chance(1, 2)
+                if not mention:
+                    continue
+                opt = ks["opt"].get(f, False) if ks else (r.chance(7, 10) if is_late else r.chance(1, 8))
+                fs.append((f, opt, pick_cs(f), None))
+            if not fs:
+                fs.append((fields[0], False, pick_cs(fields[0]), None))
+            Ks.append({"open": ks["open"] if ks else r.chance(1, 3), "fields": fs, "opt_first": r.chance(1, 2)})
+        # ---- who defines what: base fields in the literal, late fields by a later step (or never)
+        final_src = {}
+        for f in late:
+            final_src[f] = spec.get("how") or r.weighted([("def", 5), ("def_default", 2), ("def_force", 1), ("def_contract", 1), ("kdefault", 2), ("never", 1)])
+        # values: members of every contract used on the field, one field possibly a mutant
+        vals = {}
+        bad = spec.get("bad", r.chance(11, 20))
+        for f in fields:
+            cs = [c for i, c in enumerate(used[f] or fam[f][:1]) if c not in (used[f] or fam[f][:1])[:i]]
+            mv = member_all(r, cs) if len(cs) > 1 else member(r, cs[0])
+            if mv is None:
+                mv = member(r, cs[0])
+            if mv is None:
+                break
+            vals[f] = (mv, cs)
+        else:
+            if bad:
+                f = spec.get("badfield") or r.choice([x for x in late if final_src[x] != "never"] * 3 + fields)
+                ms = [x for c in vals[f][1] for x in mutants(c, vals[f][0])]
+                if ms:
+                    vals[f] = (r.choice(ms), vals[f][1])
+            base = {}
+            for f in fields:
+                if f not in late:
+                    base[f] = ((vals[f][0],), False, ())
+            if spec.get("literal_optional") or (not spec and r.chance(1, 6)):
+                f = late[0]
+                base[f] = (None, True, pick_cs(f))       # `foo | optional | C` declared in the literal, without a value
+            steps = []
+            seq_pair = not spec and nk >= 2 and r.chance(1, 4)
+            i = 0
+            while i < len(Ks):
+                if seq_pair and i == 0:
+                    steps.append(("apply", [Ks[0], Ks[1]], r.choice(["Sequence", "all_of"])))
+                    i += 2
+                    continue
+                mode = spec["ks"][i].get("mode", "apply") if spec else r.weighted([("apply", 7), ("cmerge", 2)])
+                steps.append(("apply", [Ks[i]], None) if mode == "apply" else ("cmerge", Ks[i], r.choice(["left", "right"])))
+                i += 1
+            if not spec:
+                steps = r.shuffle(steps)
+            dsteps = []
+            for f in late:
+                how, v = final_src[f], vals[f][0]
+                side = spec.get("side") or r.choice(["left", "right"])
+                if how == "def":
+                    dsteps.append(("def", {f: ("normal", v, ())}, side))
+                elif how == "def_default":
+                    dsteps.append(("def", {f: ("default", v, ())}, side))
+                elif how == "def_force":
+                    dsteps.append(("def", {f: ("force", v, ())}, side))
+                    if r.chance(1, 2):
+                        # an earlier, weaker definition that must not be the final value
+                        other = member(r, vals[f][1][0])
+                        if other is not None:
+                            dsteps.append(("def", {f: ("normal", other, ())}, r.choice(["left", "right"])))
+                elif how == "def_contract":
+                    dsteps.append(("def", {f: ("normal", v, pick_cs(f))}, side))
+                elif how == "kdefault":
+                    K = {"open": True, "fields": [(f, False, pick_cs(f) if r.chance(1, 2) else (), (v,))], "opt_first": False}
+                    dsteps.append(("apply", [K], None) if r.chance(2, 3) else ("cmerge", K, side))
+            if spec:
+                steps = steps + dsteps           # the value arrives after all the contracts
+            else:
+                for d in dsteps:                 # anywhere in the history, mostly late
+                    pos = len(steps) if r.chance(3, 5) else r.range(0, len(steps))
+                    steps.insert(pos, d)
+            # one level down: from some point on, the remaining steps (operands only) are written as `& {y = ..}`
+            nest_from = None
+            if not spec and r.chance(1, 4):
+                k = len(steps)
+                while k > 0 and steps[k - 1][0] != "apply":
+                    k -= 1
+                nest_from = r.range(k, len(steps))
+            aliases = {}
+            lets = []
+            for j, K in enumerate(Ks):
+                if spec.get("alias", r.chance(1, 2)):
+                    nm = "R%d_%d" % (n, j)
+                    aliases[id(K)] = nm
+                    lets.append((nm, k_src(K)))
+            try:
+                also = []
+                fl, final = late_sim(base, steps, also)
+            except ValueError:
+                continue
+            E, nested = late_render(base, steps, nest_from, aliases)
+            if nest_from is not None and not nested:
+                E, nested = "{y = %s}" % E, True
+            prog = PRELUDE + "".join("let %s = %s in\n" % x for x in lets) + E
+            tree = None
+            if final is not None:
+                tree = canon_V({"y": final} if nested else final)
+            ideal = prediction(fl, tree)
+            sig = "".join({"apply": "K", "cmerge": "k", "def": "d"}[x[0]] if not (x[0] == "apply" and len(x[1]) > 1) else "S" for x in steps)
+            allc = [c for f in fields for c in (used[f] or fam[f])]
+            alt = prediction(fl + also, tree) if fl else ideal
+            return {"program": prog, "swapped": prog, "ideal": ideal, "impl_model": {k: [alt] for k in ("default", "nodedup", "swapped")},
+                    "nfailed": len(fl), "ctx": "late:" + ("nested" if nested else "top"), "pres": ["late:alias" if aliases else "late:inline"],
+                    "rel": None, "role": "mutant" if bad else "member", "forced": "none", "late_history": sig,
+                    "late_sources": sorted(set(final_src.values())) + (["literal-optional"] if any(v[0] is None for v in base.values()) else []),
+                    "kinds": sorted({k for c in allc for k in kinds_of(c)}), "depth": 1 + max(depth(c) for c in allc),
+                    "contracts": [k_src(K) for K in Ks], "value": jsonable(final) if final is not None else None}
+    return None
+
+
+def gen_late_cases(seed, tier):
+    rng = core.SplitMix64(seed * 15485863 + 4004)
+    total = 320 if tier == "quick" else 10000
+    cases = []
+    n = 0
+    # systematic grid: first contract A (late field optional / required), second contract B (closed / open, mentions the late field
+    # or not), both orders, B applied by `|` or merged as an operand, the value arriving in 5 ways, good / bad value
+    grid = []
+    for a_opt in (True, False):
+        for b_open in (False, True):
+            for b_mentions in (False, True):
+                for order in ("AB", "BA"):
+                    for how in ("def", "def_default", "kdefault", "def_force", "literal"):
+                        grid.append((a_opt, b_open, b_mentions, order, how))
+    for gi, (a_opt, b_open, b_mentions, order, how) in enumerate(grid):
+        if tier == "quick" and gi % 2 != (seed % 2):
+            continue
+        for bad in (True, False):
+            if not bad and gi % 4:
+                continue
+            A = {"open": False, "mention": {"bar": True, "foo": True}, "opt": {"foo": a_opt}}
+            B = {"open": b_open, "mention": {"bar": True, "foo": b_mentions}, "opt": {"foo": True}}
+            ks = [A, B] if order == "AB" else [B, A]
+            spec = {"nk": 2, "ks": ks, "how": "def" if how == "literal" else how, "bad": bad, "badfield": "foo",
+                    "side": "left" if how == "def_default" else "right", "alias": bool(gi % 3)}
+            if how == "literal":
+                spec["literal_optional"] = True
+            n += 1
+            c = late_case(rng.fork(), n, spec)
+            if c:
+                c["stream"] = "late-systematic"
+                cases.append(c)
+    while len(cases) < total:
+        n += 1
+        c = late_case(rng.fork(), n)
+        if c:
+            c["stream"] = "late-random"
+            cases.append(c)
+    return cases
+
+
 # -------------------------------------------------------------------------------------------------------------- run
 
 def consistent(o, pred, more=()):
@@ -1235,7 +1535,7 @@ def run_cases(nk, cases):
 def run_rich(ck, nk):
     import time
     t0 = time.time()
-    cases = gen_cases(ck.seed, ck.tier)
+    cases = gen_cases(ck.seed, ck.tier) + gen_late_cases(ck.seed, ck.tier)
     rc, res, err = run_cases(nk, cases)
     ck.coverage["rich_wall_s"] = round(time.time() - t0, 1)
     ck.log("rich stream: %d programs evaluated in %.1fs" % (len(cases), time.time() - t0))
@@ -1259,6 +1559,11 @@ def run_rich(ck, nk):
             ck.hist("rich_check_exercised", f)
         if c["rel"]:
             ck.hist("rich_second_contract", c["rel"])
+        if "late_history" in c:
+            ck.hist("rich_late_history_length", len(c["late_history"]))
+            ck.hist("rich_late_history_shape", c["late_history"] if len(c["late_history"]) <= 3 else c["late_history"][:3] + "+")
+            for x in c["late_sources"]:
+                ck.hist("rich_late_value_source", x)
         ck.hist("rich_outcome", m.outcome_class(out) if out != "<missing>" else "missing")
         for key, text in judge(c, out, nod, sw):
             nviol += 1
@@ -1271,7 +1576,9 @@ def run_rich(ck, nk):
         "{_ | C}, {_ : C}, closed/open record contracts with optional fields and several contracts per field, record types, Sequence/all_of, "
         "restricted any_of; depth <= 3) x %d presentations (%s) x %d attachment contexts (%s); value = a member or a one-position mutant failing "
         "one check; each program run 3 times (default, nodedup, operands reversed). Systematic grid (every presentation x %d constructor shapes) first, "
-        "then random cases up to %d programs" % (len(PRESENTATIONS), ", ".join(PRESENTATIONS), len(CONTEXTS_1) + len(CONTEXTS_2),
+        "then random cases up to %d programs; late-value stream: histories of record contracts (|, Sequence, merged as operands) and of operands defining "
+        "late fields, in every order, systematic grid (first contract optional/required x second closed/open x mentions the late field or not x both "
+        "orders x 5 ways the value arrives) then random histories" % (len(PRESENTATIONS), ", ".join(PRESENTATIONS), len(CONTEXTS_1) + len(CONTEXTS_2),
                                                 ", ".join(CONTEXTS_1 + CONTEXTS_2), len(SYSTEMATIC_CONTRACTS), len(cases)))
     ck.trusted += ["python denotation of contracts in checks/c04_rich.py (exact on the unchanged tree: 0 unexplained disagreements required)"]
 
